@@ -93,4 +93,14 @@ theorem class_decisions_match_source (tf : Nat) (self : Tree) (free cls dflt : N
   ⟨GenTree.steal_eq self cls free policy hc hs hf, GenTree.reserveOrSteal_eq tf self free policy cls htf hf,
     GenTree.unreserveAdd_eq tf self free cls policy dflt htf hs⟩
 
+/-- **The built-in policies of the model are those of the current source**: `Classing::simple`,
+    `Classing::movable` (core) and the policy of the benchmark configurations
+    (`ClassingConfig::classing`, eval) are regenerated from the source on every run
+    (`Gen/Policy.lean`) and equal the model's policy functions — the ones every concrete
+    configuration in theorems, examples and the correspondence driver uses. -/
+theorem repo_policies_match_source (tf pmin pmax gmin gmax : Nat) :
+    Gen.P.simple tf = simplePolicy tf ∧ Gen.P.movable tf = movablePolicy tf ∧
+    Gen.P.eval pmin pmax gmin gmax = evalPolicy pmin pmax gmin gmax :=
+  ⟨GenTree.simple_eq tf, GenTree.movable_eq tf, GenTree.eval_eq pmin pmax gmin gmax⟩
+
 end LLFree.C13
